@@ -52,6 +52,7 @@ fn drop_kind(d: DropV) -> &'static str {
         DropV::CliConnInsteadOfClose => "/drop-cli-conn",
         DropV::EpEarly => "/drop-ep-early",
         DropV::IncomingDropped => "/drop-incoming",
+        DropV::IncomingAfterClose => "/incoming-after-close",
         DropV::SendAfterCancelledWrite => "/drop-send-after-cancelled-write",
     }
 }
@@ -185,6 +186,7 @@ fn drop_variants(scen: Scen, reads: u32, writes: u32) -> Vec<DropV> {
     v.push(DropV::CliConnInsteadOfClose);
     v.push(DropV::EpEarly);
     v.push(DropV::IncomingDropped);
+    v.push(DropV::IncomingAfterClose);
     if scen == Scen::S1w {
         v.push(DropV::SendAfterCancelledWrite);
     }
